@@ -17,7 +17,9 @@ EXPLANATION = (
     '(dispatch) every ExpressionBody / DatumBody variant has a handler and the tail evaluator agrees with '
     'eval_expression on non-tail forms; (apply-spread) the apply builtin passes leading arguments plus the '
     'elements of its last argument through apply_procedure.  Shape-bound formulations of the same rules are kept '
-    'only as fallbacks that can yield UNDECIDED, never a violation.')
+    'only as fallbacks that can yield UNDECIDED, never a violation. (once, tail) for a call in tail position the '
+    'tail evaluator and the trampoline are followed together: operator and operand are evaluated exactly once, in '
+    'the frame of the running procedure, and the callee then runs as an ordinary application.')
 NOT_DECIDED = "the value of arbitrary programs (semantics of a Turing-complete evaluator); order of operand evaluation."
 
 INTERP = "interpreter::interpreter::Interpreter::"
